@@ -833,3 +833,270 @@ Proof.
   intros [o t'] G H. cbn [fst snd] in *. subst o. exists t'. split; [reflexivity|].
   destruct (G _ _ (eq_trans Hg src_guards_all) eq_refl) as [_ G2]. eapply G2; [reflexivity|exact I].
 Qed.
+
+(* ------------------------------------------------------------------------------------- *)
+(* 6. shape of Stack.error                                                                 *)
+
+Lemma error_shape l :
+  errs_of (error_of l) = l /\
+  (error_of l = ENoError <-> l = []) /\
+  (forall e, error_of l = ESingle e <-> l = [e]) /\
+  (forall g, error_of l = EGroup g <-> (g = l /\ 2 <= length l)).
+Proof.
+  destruct l as [|a [|b r]]; simpl; repeat split; intros;
+    repeat match goal with H : _ /\ _ |- _ => destruct H end;
+    subst; simpl in *; try discriminate; try reflexivity; try lia;
+    try (match goal with H : _ = _ |- _ => inversion H; subst; clear H end;
+         try reflexivity; try discriminate; simpl; try lia).
+Qed.
+
+(* ------------------------------------------------------------------------------------- *)
+(* 7. location: a fault fired during a nested extraction is recorded inside that nested     *)
+(*    Stack and not in the error list of the Stack around it                               *)
+
+(* k is the result of an extract_child run started with empty lists at tick a, ended at b *)
+Definition fresh_run (c : cfg) (k : stack) (a b : nat) : Prop :=
+  exists fuel' item, run fuel' false c (root_q c item) [] [] [] a = (Ok k, b).
+
+Definition QL (c : cfg) (P : stack -> Prop) (errs : list err) (t : nat) : Prop :=
+  (forall x, In x (efaults errs) -> x < t) /\
+  forall k, P k -> exists a b, a <= b /\ b <= t /\ fresh_run c k a b
+                               /\ forall x, In x (efaults errs) -> ~ (a <= x < b).
+
+Lemma QL_equiv c (P P' : stack -> Prop) errs t : (forall k, P' k -> P k) -> QL c P errs t -> QL c P' errs t.
+Proof. intros H [B Q]. split; [assumption|]. intros k Hk. apply Q, H, Hk. Qed.
+
+Lemma QL_nf c P errs t e : not_fault e -> QL c P errs t -> QL c P (e :: errs) t.
+Proof.
+  intros N. assert (E : efaults (e :: errs) = efaults errs) by (destruct e; simpl in *; tauto).
+  unfold QL. rewrite E. auto.
+Qed.
+
+Lemma QL_tick c P errs t t2 : t <= t2 -> QL c P errs t -> QL c P errs t2.
+Proof.
+  intros L [B Q]. split; [intros x Hx; apply B in Hx; lia|].
+  intros k Hk. destruct (Q k Hk) as (a & b & L1 & L2 & F & A). exists a, b. repeat split; auto. lia.
+Qed.
+
+Lemma QL_fault c P errs t : QL c P errs t -> QL c P (EFault t :: errs) (S t).
+Proof.
+  intros [B Q]. split.
+  - simpl. intros x [<-|Hx]; [lia|apply B in Hx; lia].
+  - intros k Hk. destruct (Q k Hk) as (a & b & L1 & L2 & F & A). exists a, b. repeat split; auto.
+    simpl. intros x [<-|Hx]; [lia|apply A; assumption].
+Qed.
+
+Lemma QL_tick_nf c P errs t e : not_fault e -> QL c P errs t -> QL c P (e :: errs) (S t).
+Proof. intros N H. apply QL_nf; [assumption|]. eapply QL_tick; [|eassumption]. lia. Qed.
+
+Lemma QL_kid c P errs t k a b :
+  QL c P errs t -> t <= a -> a <= b -> fresh_run c k a b -> QL c (fun x => P x \/ x = k) errs b.
+Proof.
+  intros [B Q] L1 L2 F. split; [intros x Hx; apply B in Hx; lia|].
+  intros k' [Hk| ->].
+  - destruct (Q k' Hk) as (a' & b' & M1 & M2 & F' & A). exists a', b'. repeat split; auto. lia.
+  - exists a, b. repeat split; auto. intros x Hx. apply B in Hx. lia.
+Qed.
+
+Lemma iter_steps_QL c P o errs : forall l raises t k e t',
+  iter_steps c o l raises t = (k, e, t') -> QL c P errs t ->
+  QL c P (match e with Some e => e :: errs | None => errs end) t'.
+Proof.
+  induction l as [|i l IH]; intros raises t k e t' H Q; simpl in H.
+  - destruct (fault c t); inversion H; subst; [apply QL_fault; assumption|].
+    destruct raises; [apply QL_tick_nf; [exact I|assumption]|eapply QL_tick; [|eassumption]; lia].
+  - destruct (fault c t); [inversion H; subst; apply QL_fault; assumption|].
+    destruct (iter_steps c o l raises (S t)) as [[k1 e1] t1] eqn:E. inversion H; subst.
+    eapply IH; [eassumption|]. eapply QL_tick; [|eassumption]. lia.
+Qed.
+
+Lemma flatten_QL fuel : forall cnt c P tu te errs t te' errs' t',
+  flatten fuel cnt c tu te errs t = FlOk te' errs' t' -> QL c P errs t -> QL c P errs' t'.
+Proof.
+  induction fuel as [|fuel IH]; intros cnt c P tu te errs t te' errs' t' H Q; simpl in H; [discriminate|].
+  destruct tu as [|[[org cur] d] tu'].
+  { inversion H; subst. assumption. }
+  assert (T : QL c P errs (S t)) by (eapply QL_tick; [|eassumption]; lia).
+  destruct cur; try (eapply IH; eassumption).
+  - destruct (fault c t).
+    { destruct (g_unwrap (grd c)); [|discriminate]. eapply IH; [eassumption|]. apply QL_fault. assumption. }
+    destruct (unwrap c o) eqn:Eu;
+      try (destruct (uguard c <? S cnt));
+      try (destruct (g_unwrap (grd c)); [|discriminate]);
+      try (eapply IH; [eassumption|]; first [exact T|apply QL_tick_nf; [exact I|assumption]]; fail).
+    match type of H with context [iter_steps c o ?l ?r ?tt] => destruct (iter_steps c o l r tt) as [[k er] t2] eqn:Ei end.
+    pose proof (iter_steps_QL c P o errs _ _ _ _ _ _ Ei T) as Ti.
+    destruct er; try (destruct (g_iter (grd c)); [|discriminate]); (eapply IH; [eassumption|exact Ti]).
+  - destruct (fault c t).
+    { destruct (g_unwrap (grd c)); [|discriminate]. eapply IH; [eassumption|]. apply QL_fault. assumption. }
+    destruct (uguard c <? S cnt); try (destruct (g_unwrap (grd c)); [|discriminate]);
+      (eapply IH; [eassumption|]; first [exact T|apply QL_tick_nf; [exact I|assumption]]).
+Qed.
+
+(* a nested extraction: goes forward in time and, when it returns a Stack, that Stack is a fresh run *)
+Definition runner_fresh (c : cfg) (runner : item -> nat -> outcome * nat) : Prop :=
+  forall k t o t', runner k t = (o, t') -> t <= t' /\ forall s, o = Ok s -> fresh_run c s t t'.
+
+Lemma flat_map_rev_in_gen {A B} (g : A -> list B) l x : In x (flat_map g l) -> In x (flat_map g (rev l)).
+Proof.
+  rewrite !in_flat_map. intros (y & Hy & Hx). exists y. split; [apply -> in_rev; assumption|assumption].
+Qed.
+
+Lemma run_kids_acc_in runner : forall kids acc t ks ob t' k,
+  run_kids runner kids acc t = (ks, ob, t') -> In k acc -> In k ks.
+Proof.
+  induction kids as [|i r IH]; intros acc t ks ob t' k H Hin; simpl in H.
+  - inversion H; subst. apply -> in_rev. assumption.
+  - destruct (runner i t) as [o t1]. destruct o; [eapply IH; [eassumption|right; assumption]| |];
+      inversion H; subst; apply -> in_rev; assumption.
+Qed.
+
+Lemma run_kids_QL c runner : runner_fresh c runner -> forall kids acc P errs t ks t',
+  run_kids runner kids acc t = (ks, None, t') -> QL c P errs t -> (forall k, In k acc -> P k) ->
+  QL c (fun k => P k \/ In k ks) errs t'.
+Proof.
+  intros Hr. induction kids as [|i r IH]; intros acc P errs t ks t' H Q Hacc; simpl in H.
+  - inversion H; subst. eapply QL_equiv; [|eassumption]. intros k [Hk|Hk]; [assumption|apply Hacc, in_rev, Hk].
+  - destruct (runner i t) as [o t1] eqn:E. destruct (Hr _ _ _ _ E) as [L F].
+    destruct o as [s| |]; try discriminate.
+    pose proof (run_kids_acc_in runner _ _ _ _ _ _ s H (or_introl eq_refl)) as Hs.
+    eapply QL_equiv; [|eapply (IH (s :: acc) (fun x => P x \/ x = s)); [eassumption| |]].
+    + intros k [Hk|Hk]; [left; left; assumption|right; assumption].
+    + apply (QL_kid c P errs t s t t1 Q); [lia|assumption|apply F; reflexivity].
+    + intros k [<-|Hk]; [right; reflexivity|left; apply Hacc, Hk].
+Qed.
+
+Lemma fill_all_acc_in c runner : forall l acc errs t cx errs' t' k,
+  fill_all c runner l acc errs t = (cx, errs', t', None) -> In k (couts_kids acc) -> In k (couts_kids cx).
+Proof.
+  assert (Hsn : forall cid ks acc k, In k (couts_kids acc) -> In k (couts_kids (COut cid ks :: acc))).
+  { intros. simpl. apply in_or_app. right. assumption. }
+  induction l as [|cid r IH]; intros acc errs t cx errs' t' k H Hin; simpl in H.
+  - inversion H; subst. unfold couts_kids. apply flat_map_rev_in_gen. assumption.
+  - destruct (g_fill (grd c));
+    (destruct (fault c t); [first [eapply IH; [eassumption|apply Hsn; assumption]|discriminate]|]);
+    (destruct (fill c cid); [|first [eapply IH; [eassumption|apply Hsn; assumption]|discriminate]]);
+    destruct (run_kids runner kids [] (S t)) as [[ks ob1] t1];
+    (destruct ob1 as [b|]; [destruct b|]);
+    first [eapply IH; [eassumption|apply Hsn; assumption]|discriminate].
+Qed.
+
+Lemma fill_all_QL c runner : runner_fresh c runner -> runner_total runner -> g_fill (grd c) = true ->
+  forall l acc P errs t cx errs' t',
+  fill_all c runner l acc errs t = (cx, errs', t', None) -> QL c P errs t ->
+  (forall k, In k (couts_kids acc) -> P k) ->
+  QL c (fun k => P k \/ In k (couts_kids cx)) errs' t'.
+Proof.
+  intros Hr Ht Hg. induction l as [|cid r IH]; intros acc P errs t cx errs' t' H Q Hacc; simpl in H.
+  { inversion H; subst. eapply QL_equiv; [|eassumption].
+    intros k [Hk|Hk]; [assumption|]. apply Hacc. unfold couts_kids in *.
+    rewrite in_flat_map in *. destruct Hk as (y & Hy & Hx). exists y. split; [apply in_rev; assumption|assumption]. }
+  rewrite Hg in H.
+  assert (Hemp : forall k, In k (couts_kids (COut cid [] :: acc)) -> P k) by (intros k Hk; apply Hacc; exact Hk).
+  destruct (fault c t).
+  { eapply IH; [eassumption|apply QL_fault; assumption|exact Hemp]. }
+  destruct (fill c cid).
+  2:{ eapply IH; [eassumption|apply QL_tick_nf; [exact I|assumption]|exact Hemp]. }
+  destruct (run_kids runner kids [] (S t)) as [[ks ob1] t1] eqn:Ek.
+  destruct ob1 as [b|].
+  - pose proof Ek as Ek2. apply run_kids_from_runner in Ek2. destruct Ek2 as (k0 & t0 & E0 & Nok).
+    destruct b; [exfalso; eapply Nok; reflexivity| |discriminate].
+    exfalso. eapply (Ht k0 t0 e). rewrite E0. reflexivity.
+  - pose proof (run_kids_QL c runner Hr _ _ P errs (S t) _ _ Ek) as Qk.
+    assert (Q1 : QL c (fun k => P k \/ In k ks) errs t1).
+    { apply Qk; [eapply QL_tick; [|eassumption]; lia|intros k []]. }
+    eapply QL_equiv; [|eapply (IH (COut cid ks :: acc) (fun k => P k \/ In k ks)); [eassumption|exact Q1|]].
+    + intros k [Hk|Hk]; [left; left; assumption|right; assumption].
+    + intros k Hk. simpl in Hk. apply in_app_or in Hk. destruct Hk as [Hk|Hk]; [right; assumption|left; apply Hacc, Hk].
+Qed.
+
+Lemma ctx_step_QL c runner : runner_fresh c runner -> runner_total runner -> g_fill (grd c) = true ->
+  forall f P errs t cx errs' t',
+  ctx_step c runner f errs t = (cx, errs', t', None) -> QL c P errs t ->
+  QL c (fun k => P k \/ In k (couts_kids cx)) errs' t'.
+Proof.
+  intros Hr Ht Hg f P errs t cx errs' t' H Q. unfold ctx_step in H.
+  assert (Hnil : forall e0 t0, QL c P e0 t0 -> QL c (fun k => P k \/ In k (couts_kids [])) e0 t0).
+  { intros e0 t0 Q0. eapply QL_equiv; [|eassumption]. intros k [Hk|[]]. assumption. }
+  destruct (negb (with_ctx c)); [inversion H; subst; apply Hnil; assumption|].
+  destruct (fault c t).
+  { destruct (g_ctx (grd c)); inversion H; subst. apply Hnil, QL_fault. assumption. }
+  destruct (ctxs c f).
+  2:{ destruct (g_ctx (grd c)); inversion H; subst. apply Hnil, QL_tick_nf; [exact I|assumption]. }
+  eapply (fill_all_QL c runner Hr Ht Hg); [eassumption|eapply QL_tick; [|eassumption]; lia|intros k []].
+Qed.
+
+Lemma elab_step_QL c f P errs t r errs' h t' :
+  elab_step c f errs t = (r, errs', h, t', None) -> QL c P errs t -> QL c P errs' t'.
+Proof.
+  unfold elab_step. intros H Q.
+  destruct (fault c t).
+  { destruct (g_elab (grd c)); inversion H; subst. apply QL_fault. assumption. }
+  destruct (elab c f); try (inversion H; subst; eapply QL_tick; [|eassumption]; lia).
+  destruct (g_elab (grd c)); inversion H; subst. apply QL_tick_nf; [exact I|assumption].
+Qed.
+
+(* the located form of a result: every child Stack is a fresh nested run over some tick interval
+   [a,b), its tree reports exactly the faults fired in [a,b), and the error list of the Stack
+   around it holds no tick of that interval *)
+Definition located (c : cfg) (frs : list fout) (es : list err) : Prop :=
+  forall k, In k (fouts_kids frs) ->
+    exists a b, a <= b /\ fresh_run c k a b
+                /\ (forall x, In x (tree_faults k) <-> Fk c a b x)
+                /\ forall x, In x (efaults es) -> ~ (a <= x < b).
+
+Lemma run_located fuel : forall first c tu te errs out t frs lf es t' P,
+  grd c = all_guards ->
+  run fuel first c tu te errs out t = (Ok (Stack frs lf es), t') ->
+  QL c P errs t -> (forall k, In k (fouts_kids out) -> P k) ->
+  located c frs es.
+Proof.
+  induction fuel as [|fuel IH]; intros first c tu te errs out t frs lf es t' P Hg H Q Hout; [discriminate|].
+  destruct (all_guards_fields c Hg) as (Hu & Hi & Hc & Hf & He).
+  cbn [run] in H.
+  destruct (flatten (S fuel) 0 c tu (rev te) errs t) as [te1 errs1 t1|e1|] eqn:Efl; try discriminate.
+  pose proof (flatten_QL _ _ _ P _ _ _ _ _ _ _ Efl Q) as Q1.
+  assert (Hfin : forall errsN tN outN lf0 PN, QL c PN errsN tN -> (forall k, In k (fouts_kids outN) -> PN k) ->
+            (Ok (Stack (rev outN) lf0 (rev errsN)), tN) = (Ok (Stack frs lf es), t') -> located c frs es).
+  { intros errsN tN outN lf0 PN [B QN] HN E. inversion E; subst. intros k Hk.
+    assert (Hk' : In k (fouts_kids outN)).
+    { unfold fouts_kids in *. rewrite in_flat_map in *. destruct Hk as (y & Hy & Hx). exists y. split; [apply in_rev; assumption|assumption]. }
+    destruct (QN k (HN k Hk')) as (a & b & L1 & L2 & F & A). exists a, b.
+    split; [assumption|]. split; [assumption|]. split.
+    - destruct F as (fuel' & item & F). apply run_acct in F; [|assumption]. destruct F as [_ F].
+      intros y. rewrite F. simpl. tauto.
+    - intros y Hy. apply A. apply efaults_rev_in. assumption. }
+  destruct te1 as [|[q d] rest]; [eapply Hfin; eassumption|].
+  destruct q; try (eapply Hfin; eassumption).
+  set (runner := fun k t => run fuel false c [(better_origin c (q_of k) None, q_of k, 0)] [] [] [] t) in H.
+  assert (Hr : runner_fresh c runner).
+  { intros k t0 o t0' E. split; [apply (run_ord fuel false c _ _ _ _ _ _ _ Hg E)|].
+    intros s ->. exists fuel, k. exact E. }
+  assert (Ht : runner_total runner) by (intros k t0 e0; apply run_total; assumption).
+  destruct (ctx_step c runner f errs1 t1) as [[[cx errs2] t2] ob] eqn:Ecx.
+  destruct ob as [bad|].
+  { inversion H; subst. exfalso. eapply ctx_step_bad_not_ok; eauto. }
+  pose proof (ctx_step_QL c runner Hr Ht Hf _ P _ _ _ _ _ Ecx Q1) as Q2.
+  destruct (elab_step c f errs2 t2) as [[[[r errs3] hide] t3] oe] eqn:Eel.
+  destruct oe as [e3|]; [discriminate|].
+  pose proof (elab_step_QL _ _ _ _ _ _ _ _ _ Eel Q2) as Q3.
+  assert (Hout' : forall k, In k (fouts_kids (FOut f hide org cx :: out)) -> P k \/ In k (couts_kids cx)).
+  { intros k Hk. simpl in Hk. apply in_app_or in Hk. destruct Hk as [Hk|Hk]; [right; assumption|left; apply Hout, Hk]. }
+  assert (Hrec : forall first' tu' te',
+            run fuel first' c tu' te' errs3 (FOut f hide org cx :: out) t3 = (Ok (Stack frs lf es), t') -> located c frs es).
+  { intros first' tu' te' E. eapply IH; [exact Hg|exact E|exact Q3|exact Hout']. }
+  destruct first; [eapply Hfin; eassumption|].
+  destruct r as [|l|[i| |]|]; try (eapply Hrec; eassumption).
+  destruct (next_of rest) as [[| | |]|]; eapply Hrec; eassumption.
+Qed.
+
+Lemma extract_error_location c root frs lf es :
+  grd c = src_guards -> extract c root = Ok (Stack frs lf es) -> located c frs es.
+Proof.
+  intros Hg. unfold extract, extract_t.
+  generalize (run_located default_fuel false c (root_q c root) [] [] [] 0).
+  generalize (run default_fuel false c (root_q c root) [] [] [] 0).
+  intros [o t'] G H. cbn [fst] in H. subst o.
+  apply (G frs lf es t' (fun _ => False)); [rewrite Hg; apply src_guards_all|reflexivity| |intros k []].
+  split; [intros x []|intros k []].
+Qed.
